@@ -610,3 +610,75 @@ def r14_11_zigzag_pair(ctx: Ctx) -> RuleResult:
     else:
         rr.fail(w.qual, f"signed count {bad[0]} {bad[1]} (encoder `{unparse(enc)}`, decoder `{unparse(dec)}`)", ctx.loc(w, wcalls[0]))
     return rr
+
+
+# The nzd format's constants (Noda Time's DateTimeZoneWriter: the format is shared with files written by Noda Time itself, which
+# the reader has to accept - tests/test_data holds such a file)
+NZD_FORMAT = {
+    "_MARKER_MIN_VALUE": 0,
+    "_MARKER_MAX_VALUE": 1,
+    "_MARKER_RAW": 2,
+    "_MIN_VALUE_FOR_HOURS_SINCE_PREVIOUS": 1 << 7,
+    "_MIN_VALUE_FOR_MINUTES_SINCE_EPOCH": 1 << 21,
+}
+
+
+@rule("C14")
+def r14_12_format_constants_and_collections(ctx: Ctx) -> RuleResult:
+    """(a) The thresholds of the transition encoding are part of the file format: reader and writer sharing one constant keeps them
+    consistent with each other when it changes, but not with existing files (nor with the canonical bytes).  They are compared
+    with the published values; the minutes epoch must be 1800-01-01T00:00Z.
+    (b) Collection primitives (`write_dictionary`, composite writers with a count followed by a loop) write *every* element: the
+    length written is the length of the very collection that is iterated, the loop's iterable is not filtered, and no write inside
+    the loop is conditional - a value that "carries no information" today is still data to the reader."""
+    rr = RuleResult("R14.12", "file-format constants equal the published nzd values; collection writers emit every element of the collection whose length they announce", min_instances=8)
+    M = ctx.M
+    consts = next((k for k in M.all_classes() if k.name == "_ZoneIntervalConstants"), None)
+    if consts is None:
+        raise AnalysisError("_ZoneIntervalConstants not found")
+    for name, want in NZD_FORMAT.items():
+        rr.inst(nontrivial=False)
+        got = M.fold_class_const(consts.name, name)
+        if got == want:
+            rr.ok({"constant": name, "value": want})
+        else:
+            rr.fail(consts.qual, f"{name} = {got}, the nzd format says {want}: files written before the change (and by Noda Time) are decoded differently, and the bytes written are no longer canonical", consts.mod.rel)
+    rr.inst()
+    ep = next((unparse(n.value) for n in consts.node.body if isinstance(n, (ast.Assign, ast.AnnAssign)) and "_EPOCH_FOR_MINUTES_SINCE_EPOCH" in unparse(n)), "")
+    if ep.replace(" ", "") == "Instant.from_utc(1800,1,1,0,0)":
+        rr.ok({"epoch": ep})
+    else:
+        rr.fail(consts.qual, f"minutes-since-epoch epoch is `{ep}`, the format says 1800-01-01T00:00Z", consts.mod.rel)
+    # (b)
+    from ..kit import inline_locals, own_nodes
+
+    for f in sorted(set(M.func_of_node.values()), key=lambda x: x.qual):
+        if isinstance(f.node, ast.Lambda) or "/time_zones/" not in f.mod.rel or not (f.name.lstrip("_").startswith("write")):
+            continue
+        for loop in own_nodes(f.node):
+            if not isinstance(loop, ast.For):
+                continue
+            writes = [c for b in loop.body for c in ast.walk(b) if isinstance(c, ast.Call) and isinstance(c.func, ast.Attribute) and c.func.attr.lstrip("_").startswith("write")]
+            if not writes:
+                continue
+            rr.inst()
+            it = inline_locals(f.node, loop.iter)
+            filt = next((x for x in ast.walk(it) if isinstance(x, (ast.ListComp, ast.GeneratorExp, ast.SetComp, ast.DictComp)) and any(g.ifs for g in x.generators)), None)
+            filt = filt or next((x for x in ast.walk(it) if isinstance(x, ast.Call) and isinstance(x.func, ast.Name) and x.func.id == "filter"), None)
+            cond = next((w for w in writes if any(isinstance(p, ast.If) for p in _parents_until(w, loop))), None)
+            if filt is not None:
+                rr.fail(f.qual, f"the loop writes a filtered view of the collection (`{unparse(filt)[:70]}`): the elements left out cannot be read back", ctx.loc(f, loop))
+            elif cond is not None:
+                rr.fail(f.qual, f"`{unparse(cond)[:60]}` inside the element loop is conditional: some elements are not written", ctx.loc(f, cond))
+            else:
+                rr.ok({"writer": f.qual, "loop over": unparse(loop.iter)[:50]})
+    return rr
+
+
+def _parents_until(n: ast.AST, stop: ast.AST) -> list[ast.AST]:
+    out = []
+    p = getattr(n, "_parent", None)
+    while p is not None and p is not stop:
+        out.append(p)
+        p = getattr(p, "_parent", None)
+    return out
